@@ -73,7 +73,8 @@ ANCHORS = ["glue.core.data:Data.compute_statistic", "glue.core.data:Data.compute
            "glue.viewers.histogram.state:HistogramLayerState.update_histogram"]
 
 PERCENTILES = [0, 10, 25, 50, 99.5, 100]
-STAT_VIEW_KINDS = ["none", "none", "none", "ellipsis", "bare_slice", "slice_tuple_full", "slice_tuple_full",
+STAT_VIEW_KINDS = ["none", "none", "none", "ellipsis", "bare_slice", "empty_tuple", "list_of_slices", "slice_tuple_full",
+                   "slice_tuple_full",
                    "slice_tuple_short", "int_slice_mix", "int_slice_mix", "all_int", "empty_slice"]
 
 
@@ -88,7 +89,54 @@ def rand_special_floats(rng, shape, p_special=0.45):
     return np.array(vals, dtype=float).reshape(shape)
 
 
-def make_dataset(rng, tier, shape=None, coords="random", with_collection=False):
+LAYOUTS = ["c_contiguous", "c_contiguous", "fortran_copy", "transposed_view", "strided_view", "reversed_view",
+           "broadcast_stride0"]
+MAG_SCALES = [1e-10, 1e-7, 1.0, 1e6, 1e12]
+
+
+def in_layout(arr, layout):
+    """The same values in another memory layout (what the dataset is handed; glue must not care)."""
+    if layout == "fortran_copy":
+        return np.asfortranarray(arr)
+    if layout == "transposed_view":
+        return np.ascontiguousarray(arr.T).T
+    if layout == "strided_view":
+        return np.repeat(arr, 2, axis=arr.ndim - 1)[..., ::2]
+    if layout == "reversed_view":
+        return np.ascontiguousarray(arr[::-1])[::-1]
+    if layout == "broadcast_stride0":
+        # every slab along axis 0 equal to the first one, stored once (stride 0, read-only)
+        return np.broadcast_to(arr[:1].copy(), arr.shape)
+    return arr.copy()
+
+
+def add_variant_components(rng, ds):
+    """dtype / byte-order / magnitude variants of the attributes (audit themes 1 and 3)."""
+    d, shape = ds.data, ds.shape
+    n = ds.size
+    special32 = [-2.0, -0.5, 0.0, 0.5, 3.0, float("nan"), float("inf"), 16777217.0, 1e-10, 0.1]
+    f4 = np.array([rng.choice(special32) if rng.random() < 0.4 else rng.uniform(-3, 3) for _ in range(n)],
+                  dtype="float32").reshape(shape)
+    u1 = np.array([rng.choice([0, 255, 200, 1, 128]) if rng.random() < 0.5 else rng.randint(0, 255) for _ in range(n)],
+                  dtype="uint8").reshape(shape)
+    i1 = np.array([rng.choice([-128, 127, 0, -1]) if rng.random() < 0.5 else rng.randint(-128, 127) for _ in range(n)],
+                  dtype="int8").reshape(shape)
+    be = np.array([rng.choice(SPECIAL) if rng.random() < 0.3 else round(rng.uniform(-3, 3), 3) for _ in range(n)],
+                  dtype=">f8").reshape(shape)
+    bi = np.array([rng.randint(-5, 9) for _ in range(n)], dtype=">i4").reshape(shape)
+    scale = rng.choice(MAG_SCALES)
+    base = [rng.choice([1.0, 1.0 + 1e-9, 1.0 - 1e-9, 0.5, 0.25, -1.0, 0.0, 1e-3]) if rng.random() < 0.6
+            else rng.uniform(-1, 1) for _ in range(n)]
+    mg = (np.array(base) * scale).reshape(shape)
+    ds.mag_scale = scale
+    for name, arr, kind in (("f4", f4, "float32"), ("u1", u1, "uint8"), ("i1", i1, "int8"), ("be", be, "float_big_endian"),
+                            ("bi", bi, "int_big_endian"), ("mg", mg, "float_magnitude")):
+        d.add_component(arr.copy(), name)
+        ds.raw[name] = np.array(arr, dtype=float)
+        ds.kinds[name] = kind
+
+
+def make_dataset(rng, tier, shape=None, coords="random", with_collection=False, variants=True):
     ds = DS()
     if shape is None:
         nd = rng.choice([1, 1, 2, 2, 2, 3, 3, 3, 4])
@@ -114,11 +162,16 @@ def make_dataset(rng, tier, shape=None, coords="random", with_collection=False):
     ds.raw["v"] = rand_special_floats(rng, shape)
     ds.raw["w"] = injective_floats(rng, shape)
     ds.raw["i"] = rand_ints(rng, shape)
-    for name in ("v", "w", "i"):
+    ds.layout_v = rng.choice(LAYOUTS) if variants else "c_contiguous"
+    d.add_component(in_layout(ds.raw["v"], ds.layout_v), "v")
+    if ds.layout_v == "broadcast_stride0":
+        ds.raw["v"] = np.array(d.get_data(d.id["v"]), dtype=float)
+    for name in ("w", "i"):
         d.add_component(ds.raw[name].copy(), name)
     ds.kinds = {"v": "float", "w": "float_injective", "i": "int"}
+    add_variant_components(rng, ds)
     if nd == 1:
-        labels = rand_cats(rng, shape[0])
+        labels = rand_cats(rng, shape[0], cats=rng.choice([("a", "b", "c", "dd"), ("a", "ab", "abc", "b")]))
         d.add_component(labels, "c")
         cats = sorted(set(labels.tolist()))
         ds.raw["c"] = np.array([cats.index(x) for x in labels.tolist()], dtype=float)
@@ -148,7 +201,8 @@ def cid_of(ds, name):
     return d.id[name]
 
 
-def pick_attr(rng, ds, allow=("v", "v", "v", "i", "w", "der", "c", "pix", "pix", "world")):
+def pick_attr(rng, ds, allow=("v", "v", "v", "i", "w", "der", "c", "pix", "pix", "world", "f4", "u1", "i1", "be", "bi",
+                                "mg", "mg")):
     while True:
         a = rng.choice(allow)
         if a == "c" and ds.nd != 1:
@@ -168,6 +222,10 @@ def stat_view(rng, shape, kind):
     sl = lambda n: rand_slice(rng, n, allow_empty=rng.random() < 0.12)
     if kind == "bare_slice":
         return sl(shape[0]) if nd == 1 else (sl(shape[0]),)
+    if kind == "empty_tuple":
+        return ()
+    if kind == "list_of_slices":
+        return [sl(n) for n in shape]
     if kind == "slice_tuple_full":
         return tuple(sl(n) for n in shape)
     if kind == "slice_tuple_short":
@@ -336,7 +394,8 @@ def random_stat_query(rng, ds):
             vk = "slice_tuple_short"
         q["view_kind"] = vk
         q["view"] = stat_view(rng, ds.shape, vk)
-        vshape = np.empty(ds.shape, bool)[q["view"]].shape if q["view"] is not None else ds.shape
+        vv = tuple(q["view"]) if isinstance(q["view"], list) else q["view"]
+        vshape = np.empty(ds.shape, bool)[vv].shape if vv is not None else ds.shape
         q["axis"], q["axis_kind"] = axis_choice(rng, len(vshape))
         q["n_chunk_max"] = rng.choice([None, None, 1, 2, 3, 5, max(1, ds.size - 1), ds.size, ds.size + 1,
                                        rng.randint(1, ds.size + 1)])
@@ -362,7 +421,8 @@ def run_stat_query(ctx, rng, ds, q, api="compute_statistic", indexed=None, sel=N
     state, fullmask = sel
     if shortcut_slices is None and isinstance(state, SliceSubsetState) and state.reference_data is ds.data:
         shortcut_slices = list(state.slices)
-    view = q["view"]
+    given_view = q["view"]
+    view = tuple(given_view) if isinstance(given_view, list) else given_view
     full = ds.raw[q["attr"]]
     if indexed is not None:
         idata, indices = indexed
@@ -411,11 +471,27 @@ def run_stat_query(ctx, rng, ds, q, api="compute_statistic", indexed=None, sel=N
     except Exception:
         feats["attr_is_broadcast"] = None
     exp = ref_statistic(q["stat"], vals, keep, q["axis"], q["pct"])
-    kw = dict(subset_state=state, axis=q["axis"], finite=q["finite"], positive=q["positive"], view=view)
+    kw = dict(subset_state=state, axis=q["axis"], finite=q["finite"], positive=q["positive"], view=given_view)
     if q["pct"] is not None:
         kw["percentile"] = q["pct"]
     if q["n_chunk_max"] is not None:
         kw["n_chunk_max"] = q["n_chunk_max"]
+    # the same arguments as numpy scalars / the attribute named by its label (audit themes 2 and 3)
+    style = q.get("argument_style") or ("numpy_scalars_and_label" if rng.random() < 0.2 else "plain")
+    if style != "plain":
+        if not q["attr"].startswith(("pix", "world")) and indexed is None:
+            cid = q["attr"]
+        if "percentile" in kw:
+            kw["percentile"] = np.float64(kw["percentile"]) if rng.random() < 0.5 else np.float32(kw["percentile"])
+        if "n_chunk_max" in kw:
+            kw["n_chunk_max"] = np.int64(kw["n_chunk_max"])
+        if isinstance(kw["axis"], int):
+            kw["axis"] = np.int64(kw["axis"])
+        elif isinstance(kw["axis"], tuple):
+            kw["axis"] = tuple(np.int64(a) for a in kw["axis"])
+        kw["finite"], kw["positive"] = np.bool_(kw["finite"]), np.bool_(kw["positive"])
+        ctx.count("stat_numpy_scalar_arguments")
+    feats["argument_style"] = style
     nq = int(keep.sum())
     nontrivial = nq >= 2 and (q["sel_kind"] != "none" or view is not None or q["axis"] is not None
                               or feats["chunking"] == "chunked_reduction")
@@ -464,6 +540,10 @@ def run_stat_query(ctx, rng, ds, q, api="compute_statistic", indexed=None, sel=N
         ctx.violation(sig, witness({"got": repr(got)[:300]}))
         return
     ctx.count("stat_compared")
+    # float32 attributes are reduced in float32 when no axis is given: agreement to float32 rounding, not float64's
+    rtol = 6e-6 if feats["attr_kind"] == "float32" else 1e-9
+    kept = vals[keep]
+    vscale = float(np.max(np.abs(kept))) if kept.size else 0.0
     if g.shape != exp.shape:
         sig = structural(feats)
         sig.update({"kind": "shape_mismatch", "got_scalar": g.ndim == 0})
@@ -474,7 +554,7 @@ def run_stat_query(ctx, rng, ds, q, api="compute_statistic", indexed=None, sel=N
             sub, ksub = vals[sl], keep[sl]
             # (an empty sub-array reduces to NaN cells of the sub-array's reduced shape, possibly an empty array)
             esub = ref_statistic(q["stat"], sub, ksub, q["axis"], q["pct"])
-            ok_sub = g.shape == esub.shape and close(g, esub)
+            ok_sub = g.shape == esub.shape and close(g, esub, rtol, vscale)
             if sub.size == 0:
                 ctx.count("stat_shortcut_empty_subarray_compared")
             ctx.count("stat_shortcut_subarray_compared")
@@ -483,7 +563,7 @@ def run_stat_query(ctx, rng, ds, q, api="compute_statistic", indexed=None, sel=N
                 sig.update({"kind": "shortcut_result_is_not_the_reduction_of_the_selected_subarray"})
         ctx.violation(sig, witness({"got": g, "got_shape": g.shape, "expected_shape": exp.shape}))
         return
-    if not close(g, exp):
+    if not close(g, exp, rtol, vscale):
         sig = dict(feats)
         nan_e, nan_g = np.isnan(exp), np.isnan(g)
         if np.any(nan_e & ~nan_g):
@@ -530,7 +610,7 @@ def run_grid(ctx, tier, shape_i, sel_kind):
 def random_hist_query(rng, ds, selected=None):
     """`selected`: reference mask of the selection the query will be run with (ranges are then aimed at the selected values)."""
     q = {}
-    q["attr"] = pick_attr(rng, ds, ("v", "v", "i", "i", "w", "der", "c", "pix"))
+    q["attr"] = pick_attr(rng, ds, ("v", "v", "i", "i", "w", "der", "c", "pix", "f4", "u1", "i1", "be", "bi", "mg"))
     q["weights"] = rng.choice([None, None, None, None, "w", "w", "i", "i", "der"])
     q["sel_kind"] = rng.choice(SEL_KINDS)
     q["log"] = rng.choice([None, False, False, True])
@@ -587,6 +667,25 @@ def random_hist_query(rng, ds, selected=None):
     return q
 
 
+def log_precision(ds, attrs_logs):
+    """Precision in which np.log10 evaluates the stored attribute(s) that are binned in log space ('float16' for 8-bit
+    integers, 'float32' for 16-bit integers and float32, else 'float64'); None without a log axis."""
+    worst = None
+    for attr, log in attrs_logs:
+        if not log:
+            continue
+        try:
+            stored = ds.data.get_data(cid_of(ds, attr))
+            if hasattr(stored, "codes"):
+                stored = stored.codes
+            dt = np.log10(np.ones(1, dtype=np.asarray(stored).dtype)).dtype.name
+        except Exception:
+            dt = "float64"
+        if worst is None or int(dt[5:]) < int(worst[5:]):
+            worst = dt
+    return worst
+
+
 def too_narrow(lo, hi, log):
     """Ranges so narrow that the 10-ulp widening of the upper end is no longer negligible against one bin
     (|end| * 1e-14 / width approaching the 1e-7 edge tolerance) are kept out of the comparison."""
@@ -636,6 +735,7 @@ def run_hist_query(ctx, rng, ds, q, api="compute_histogram", layer_call=None, se
         return
     definite, ambiguous, total, nin = hist_reference(ds, q, fullmask)
     feats["has_edge_coincident"] = bool(ambiguous)
+    feats["log_axis_precision"] = log_precision(ds, [(q["attr"], q["log"])])
     top = math.log10(hi) if q["log"] else hi        # the upper end in the space the bins live in
     feats["upper_end"] = "negative" if top < 0 else ("zero" if top == 0 else "positive")
     xfull = ds.raw[q["attr"]]
@@ -773,6 +873,7 @@ def run_hist2d_query(ctx, rng, ds, qx, qy, sel):
              "log": bool(qx["log"] or qy["log"]), "selection": qx["sel_kind"], "range_kind": qx["range_kind"],
              "range_kind_y": qy["range_kind"], "reversed_range": bool(qx["reversed"] or qy["reversed"]),
              "has_edge_coincident": namb > 0,
+             "log_axis_precision": log_precision(ds, [(qx["attr"], qx["log"]), (qy["attr"], qy["log"])]),
              "upper_end": "negative" if neg else ("zero" if 0 in tops else "positive"),
              "has_value_at_upper_end": bool(np.any(fullmask & at_top))}
     ranges = [(a["hi"], a["lo"]) if a["reversed"] else (a["lo"], a["hi"]) for a in axes]
